@@ -208,7 +208,8 @@ func (fr *Frame) appendModel(site ssa.Instruction, c *ssa.CallCommon, st *State,
 		pre.H[ev] = E
 		vc.assume(reach, sEq(vc.viewOf(st, r), fmt.Sprintf("(seq_cat %s %s)", vc.viewOf(pre, s), vc.viewOf(pre, t))))
 	}
-	fr.noteAlloc(st, reach, sIte(fits, "0", ncap), site.Pos())
+	// buffered data: the new logical length when the array has to grow
+	fr.noteAlloc(st, reach, sIte(fits, "0", newLen), site.Pos())
 	return r
 }
 
